@@ -1088,6 +1088,9 @@ func c10ChildOnce(dir string, gi, attempt int, batch []c10Scn) ([]c10Scn, string
 	cmd := exec.Command(os.Args[0], "c10-child", in, out)
 	cmd.Dir = wd
 	cmd.Env = append(os.Environ(), "GOTRACEBACK=single")
+	if c10Tier != "thorough" && os.Getenv("C10_WAIT_CAP_S") == "" {
+		cmd.Env = append(cmd.Env, "C10_WAIT_CAP_S=12")
+	}
 	sb := &strings.Builder{}
 	cmd.Stderr = &capWriter{sb: sb}
 	cmd.Stdout = cmd.Stderr
@@ -1131,6 +1134,7 @@ var c10Stats = struct {
 	mu                                sync.Mutex
 	clause, cfg, tries, races         map[string]int
 	reqs, replies, scenarios, skipped int
+	traces                            int
 	retried                           []string
 }{clause: map[string]int{}, cfg: map[string]int{}, tries: map[string]int{}, races: map[string]int{}}
 
@@ -1143,6 +1147,9 @@ func c10Class(s *c10Scn) string {
 	c10Stats.tries[fmt.Sprintf("%d", s.Tries)]++
 	c10Stats.retried = append(c10Stats.retried, s.Retried...)
 	c10Stats.reqs += len(s.Reqs)
+	if s.Kind == "sched" && s.Err == "" {
+		c10Stats.traces += len(s.Reqs)
+	}
 	c10Stats.replies += len(s.Obs)
 	tr := "tcp"
 	if s.UDP {
@@ -1210,7 +1217,10 @@ func c10Class(s *c10Scn) string {
 	return fmt.Sprintf("pool=%d ht=%d udp=%v %s [%s]", s.Cfg.Pool, s.Cfg.HT, s.UDP, s.Kind, strings.Join(ks, ","))
 }
 
+var c10Tier string
+
 func c10Main(a Args) {
+	c10Tier = a.Tier
 	p := Prop[c10Scn]{
 		ID:       "C10",
 		Require:  "From TarsV Require Import Base.Hex Codec.GenCodec Rpc.Invoke.",
@@ -1234,7 +1244,8 @@ func c10Main(a Args) {
 			res.Stats["tries_per_scenario"] = c10Stats.tries
 			res.Stats["race_outcomes_observed"] = c10Stats.races
 			res.Stats["timing_failures_not_reproduced"] = c10Stats.retried
-			res.Traces = c10Stats.scenarios - c10Stats.skipped
+			res.Traces = c10Stats.traces // recorded S/R/T orders validated against the transition system (sched scenarios)
+			res.Stats["recorded_schedules_validated"] = c10Stats.traces
 		},
 	}
 	if a.Replay != "" {
